@@ -40,6 +40,8 @@ const (
 	findingConflictThenNil = "C09-conflicting-witness-counts-as-match"
 	// findNewPrimary promotes a witness to primary and then fails to take it off the witness list
 	findingPrimaryIsWitness = "C09-promoted-primary-stays-witness"
+	// backwards verification checks the hash link of headers only and then stores the light block it was handed first
+	findingBackwardsUnvalidated = "C09-backwards-stores-unvalidated-block"
 )
 
 type apiCall struct {
@@ -244,6 +246,7 @@ func runEpisode(t *rapid.T, w *world, label string, hk *hook) epResult {
 
 	var forkNotes []string
 	hostile := map[string]bool{} // fork label -> its commits have a hostile layout
+	relOf := map[string]int64{}  // fork label -> genuine height its forged time refers to
 	mkFork := func(lbl string, backed bool, base func(int64) *types.LightBlock) map[int64]*types.LightBlock {
 		if tgt == 0 {
 			return map[int64]*types.LightBlock{}
@@ -296,6 +299,13 @@ func runEpisode(t *rapid.T, w *world, label string, hk *hook) epResult {
 			}
 			fs = w.genFork(t, lbl, j, m, w.g[refH].ValidatorSet, num, den, now, drift, refH)
 			fs.salt = label + lbl
+			if fs.timeMode == "rel" && fs.j < tgt && rapid.IntRange(0, 2).Draw(t, lbl+".relAtTarget") != 0 {
+				// aim the relative time at the header the client will be asked for
+				fs.j, fs.m = tgt, tgt
+				if tgt > L {
+					fs.genuineFirst = false
+				}
+			}
 		}
 		forkNotes = append(forkNotes, fmt.Sprintf("%s: heights %d..%d genuineFirst=%v coalition=%s nilRest=%v time=%s forgedVals=[%s]", lbl, fs.j, fs.m, fs.genuineFirst, fs.coal, fs.nilRest, fs.timeMode, describeVals(fs.fv.Set)))
 		if fs.layout != "" {
@@ -311,18 +321,25 @@ func runEpisode(t *rapid.T, w *world, label string, hk *hook) epResult {
 		}
 		cls.add("fork-coalition:" + fs.coal)
 		cls.add("fork-time:" + fs.timeMode)
+		if fs.timeMode == "rel" {
+			relOf[lbl] = fs.relH
+			forkNotes[len(forkNotes)-1] += fmt.Sprintf(" time=T(%d)%+v", fs.relH, fs.relD)
+		}
 		return w.build(fs, base)
 	}
 	addFaults := func(n *node, lbl string) {
 		k := rapid.IntRange(1, 2).Draw(t, lbl+".nfaults")
 		for i := 0; i < k; i++ {
 			h := rapid.Int64Range(0, L+1).Draw(t, lbl+".faultH")
+			if rapid.Bool().Draw(t, lbl+".atCall") {
+				h = calls[rapid.IntRange(0, len(calls)-1).Draw(t, lbl+".callIdx")].height // where the client will ask
+			}
 			if h == r && rapid.Bool().Draw(t, lbl+".keepRoot") {
 				continue
 			}
 			if rapid.IntRange(0, 3).Draw(t, lbl+".malformed") == 0 && h >= 1 && h <= L {
 				o := w.g[1+(h%L)]
-				n.blocks[h] = malform(t, w.g[h], o, lbl+".malform")
+				n.blocks[h] = w.malform(t, w.g[h], o, lbl+".malform")
 			} else {
 				n.errAt[h] = genErrClass(t, lbl+".faultE")
 			}
@@ -361,6 +378,31 @@ func runEpisode(t *rapid.T, w *world, label string, hk *hook) epResult {
 	primary.hostileLayout = hostile["pfork"]
 	if strings.HasSuffix(pkind, "faulty") {
 		addFaults(primary, "pfault")
+		// a RAW provider returns what it has without validating it: internally inconsistent light blocks reach the client
+		primary.raw = rapid.Bool().Draw(t, "pfault.raw")
+		if rapid.IntRange(0, 2).Draw(t, "pfault.badRoot") == 0 {
+			primary.blocks[r] = w.malform(t, w.g[r], w.g[1+(r%L)], "pfault.badRoot.kind")
+			delete(primary.errAt, r)
+			cls.add("primary:malformed-root")
+		}
+		if primary.raw {
+			cls.add("primary:raw")
+		}
+		if rapid.IntRange(0, 2).Draw(t, "pfault.twoFaced") == 0 {
+			// the first request for a height the client will ask for is answered with a forged header (signed by a drawn
+			// coalition), every later request for that height with the real one
+			hc := calls[rapid.IntRange(0, len(calls)-1).Draw(t, "pfault.twoFaced.call")].height
+			if hc >= 2 && hc <= L && hc != r {
+				fs := w.genFork(t, "pfault.twoFaced.fork", hc, hc, w.g[hc].ValidatorSet, num, den, now, drift, hc-1)
+				fs.salt = label + "twofaced"
+				if fs.timeMode != "genuine" {
+					fs.timeMode = "genuine"
+				}
+				primary.firstAnswer = map[int64]*types.LightBlock{hc: w.build(fs, gview)[hc]}
+				cls.add("primary:two-faced")
+				forkNotes = append(forkNotes, fmt.Sprintf("primary answers the first request for height %d with a forged header (coalition=%s genuineVals=%v), later ones with the real one", hc, fs.coal, fs.genuineFirst))
+			}
+		}
 	}
 	cls.add("primary:" + pkind)
 
@@ -381,6 +423,9 @@ func runEpisode(t *rapid.T, w *world, label string, hk *hook) epResult {
 			menu = []string{"honest", "echo", "silent", "silent-later", "lagging", "lagging-catchup", "notfound", "invalid", "conflict-backed", "conflict-unbacked"}
 		}
 		kind := rapid.SampledFrom(menu).Draw(t, lbl+".kind")
+		if relOf["pfork"] > 0 && i == nW-1 && tmpl != "honest" && rapid.IntRange(0, 2).Draw(t, lbl+".lagAtRel") != 0 {
+			kind = "lagging"
+		}
 		if tgt == 0 && strings.HasPrefix(kind, "conflict") {
 			kind = "honest"
 		}
@@ -393,6 +438,7 @@ func runEpisode(t *rapid.T, w *world, label string, hk *hook) epResult {
 			b, l := overlay(primary.blocks, nil)
 			n = w.newNode(ep, kind, b, l)
 			n.hostileLayout = primary.hostileLayout
+			n.raw = primary.raw
 		case "silent", "silent-later":
 			b, l := overlay(w.g, nil)
 			n = w.newNode(ep, kind, b, l)
@@ -413,7 +459,11 @@ func runEpisode(t *rapid.T, w *world, label string, hk *hook) epResult {
 			if lo > hi {
 				lo = hi
 			}
-			n = w.newNode(ep, kind, b, rapid.Int64Range(lo, hi).Draw(t, lbl+".latest"))
+			latest := rapid.Int64Range(lo, hi).Draw(t, lbl+".latest")
+			if rh := relOf["pfork"]; rh >= 1 && rh <= L && rapid.IntRange(0, 3).Draw(t, lbl+".headAtRel") != 0 {
+				latest = rh // the witness's head is the block the forged time was aimed at
+			}
+			n = w.newNode(ep, kind, b, latest)
 			if kind == "lagging-catchup" {
 				n.catchUp = rapid.IntRange(1, 4).Draw(t, lbl+".catchup")
 				n.latest2 = L
@@ -428,7 +478,11 @@ func runEpisode(t *rapid.T, w *world, label string, hk *hook) epResult {
 		case "invalid":
 			b, l := overlay(w.g, nil)
 			n = w.newNode(ep, kind, b, l)
-			n.blocks[th] = malform(t, w.g[th], w.g[1+(th%L)], lbl+".malform")
+			n.blocks[th] = w.malform(t, w.g[th], w.g[1+(th%L)], lbl+".malform")
+			n.raw = rapid.Bool().Draw(t, lbl+".raw")
+			if n.raw {
+				cls.add("witness:raw")
+			}
 		case "conflict-backed":
 			b, l := overlay(w.g, mkFork(lbl+"fork", true, gview))
 			n = w.newNode(ep, kind, b, l)
@@ -500,6 +554,9 @@ func runEpisode(t *rapid.T, w *world, label string, hk *hook) epResult {
 		cls.add("init:ok")
 		if len(stored) != 1 {
 			t.Fatalf("NewClient succeeded but the trust root is not stored")
+		}
+		if err := rf.wellFormed(stored[r]); err != nil {
+			t.Fatalf("TRUST ROOT: NewClient stored the root %d as a light block that is not well formed (%v): later steps are judged against a validator set / commit the trusted header does not name\nprimary=%s raw=%v witnesses=%v", r, err, pkind, primary.raw, wkinds)
 		}
 	}
 
@@ -630,8 +687,24 @@ func runEpisode(t *rapid.T, w *world, label string, hk *hook) epResult {
 							why += fmt.Sprintf("\n  from trusted %d: %s", a.Height, rf.forward(a, b, c.now))
 						}
 					}
+					if b.Height < firstBefore && lib.IsKnown(findingBackwardsUnvalidated) {
+						lib.ObservedKnown(findingBackwardsUnvalidated)
+						lib.ExcludedByKnown(findingBackwardsUnvalidated)
+						cls.add("known:backwards-unvalidated")
+						continue
+					}
 					t.Fatalf("SOUNDNESS: header %d/%X (genuine=%v) is in the trusted store but no chain of valid verification steps leads to it from the trusted headers %v over the %d light blocks the providers returned%s\n%s",
 						b.Height, b.Hash(), isGenuine(b), heightsOf(tl), len(U), why, desc)
+				}
+				if err := rf.wellFormed(b); err != nil {
+					if b.Height < firstBefore && lib.IsKnown(findingBackwardsUnvalidated) {
+						lib.ObservedKnown(findingBackwardsUnvalidated)
+						lib.ExcludedByKnown(findingBackwardsUnvalidated)
+						cls.add("known:backwards-unvalidated")
+					} else {
+						t.Fatalf("SOUNDNESS: header %d/%X was stored as a light block that is not well formed (%v): whatever is verified from it later is judged against a validator set / commit its header does not name (backwards=%v)\n%s",
+							b.Height, b.Hash(), err, b.Height < firstBefore, desc)
+					}
 				}
 				if !isGenuine(b) {
 					cls.add("forged-header-trusted-within-model")
@@ -752,6 +825,8 @@ func runEpisode(t *rapid.T, w *world, label string, hk *hook) epResult {
 			}
 			isAttack := errors.Is(err, light.ErrLightClientAttack)
 			var backers []int
+			forwardConflict := false
+			_ = forwardConflict
 			if s != nil {
 				for _, rec := range recs {
 					// late replies count too: the client must not stop listening while a witness it asked has not answered
@@ -761,6 +836,32 @@ func runEpisode(t *rapid.T, w *world, label string, hk *hook) epResult {
 					n := ep.nodes[rec.prov]
 					if n.static(s.Height, tH) && rf.adjacentConsistent(n.view, s, rec.lb, c.now) {
 						backers = append(backers, rec.prov)
+					}
+				}
+				// forward conflict: a witness that does not have the target height yet answered with its head block, and
+				// that head is NOT EARLIER in time than the primary's header although it is lower: block time grows with
+				// height, so the witness's chain (if it proves its head from the trusted block) refutes the primary's header
+				var ptimes []time.Time
+				for _, rec := range recs {
+					if rec.origin == "main" && rec.lb != nil && rec.lb.Height == tH {
+						ptimes = append(ptimes, rec.lb.Time)
+					}
+				}
+				for _, rec := range recs {
+					if rec.origin != "compare" || rec.height != 0 || rec.lb == nil || rec.lb.Height >= tH || rec.lb.Height <= s.Height || len(ptimes) == 0 {
+						continue
+					}
+					notBefore := true
+					for _, pt := range ptimes {
+						if rec.lb.Time.Before(pt) {
+							notBefore = false
+						}
+					}
+					n := ep.nodes[rec.prov]
+					if notBefore && n.static(s.Height, tH) && n.view(tH) == nil && rf.adjacentConsistent(n.view, s, rec.lb, c.now) && !containsInt(backers, rec.prov) {
+						backers = append(backers, rec.prov)
+						forwardConflict = true
+						cls.add("backed-conflict:forward(head-not-earlier-than-target)")
 					}
 				}
 			}
@@ -777,8 +878,8 @@ func runEpisode(t *rapid.T, w *world, label string, hk *hook) epResult {
 						lib.ObservedKnown(findingConflictThenNil)
 						lib.ExcludedByKnown(findingConflictThenNil)
 					} else {
-						t.Fatalf("WITNESS RULE: witness(es) %v returned a different header for height %d and serve a chain that proves it from trusted height %d, but the call returned %v instead of ErrLightClientAttack (verdicts %v)\n%s",
-							backers, tH, s.Height, err, verd, desc)
+						t.Fatalf("WITNESS RULE: witness(es) %v hold a header that contradicts the primary's header %d (another header for that height, or - forward conflict=%v - a lower head block that is not earlier in time) and serve a chain that proves it from trusted height %d, but the call returned %v instead of ErrLightClientAttack (verdicts %v)\n%s",
+							backers, tH, forwardConflict, s.Height, err, verd, desc)
 					}
 				}
 			}
@@ -968,6 +1069,9 @@ func runEpisode(t *rapid.T, w *world, label string, hk *hook) epResult {
 		// rule 1: the trust root is stored
 		if b, ok := stored[r2]; !ok || hkey(b) != hkey(root2) {
 			t.Fatalf("RESTART: NewClient succeeded but the store does not hold the trust root at height %d\n%s", r2, desc)
+		}
+		if err := rf.wellFormed(stored[r2]); err != nil {
+			t.Fatalf("TRUST ROOT: NewClient (lifetime %d) stored the root %d as a light block that is not well formed (%v)\n%s", life, r2, err, desc)
 		}
 		// rule 2: nothing above the root
 		// rule 3: older headers only if they were trusted before and the options vouch for the highest of them
@@ -1275,6 +1379,13 @@ func checkEvidence(t *rapid.T, ep *episode, w *world, rf *ref, cl *light.Client,
 		if cm == nil || cm.SignedHeader == nil || cm.Header == nil {
 			t.Fatalf("EVIDENCE: receiver %d has no block at common height %d\n%s", e.prov, ch, desc)
 		}
+		if rf.wellFormed(cm) != nil {
+			// a raw witness served its copy of the common header with a validator set the header does not name; the
+			// client examines the witness's chain starting from THAT copy (examineConflictingHeaderAgainstTrace keeps
+			// the source's block, not its own trusted one). The outcome is a (false) attack report, nothing is stored.
+			cls.add("observation:witness-chain-examined-from-its-own-malformed-copy-of-the-common-block")
+			continue
+		}
 		if ch < cb.Height {
 			// the common block is the last block both sides' traces share: the client accepted the conflicting block in ONE
 			// verification step from it (that single step is also all a full node re-checks before accepting the evidence)
@@ -1293,7 +1404,13 @@ func checkEvidence(t *rapid.T, ep *episode, w *world, rf *ref, cl *light.Client,
 		t.Fatalf("EVIDENCE: ErrLightClientAttack but no witness received evidence against the primary\n%s", desc)
 	}
 	// both sides: when the primary too serves a chain that proves its header, it must receive evidence against the witness
-	if prim != nil && s != nil && !replaced {
+	forwardSeen := false // a lagging witness answered with its head: a conflict by time has no bifurcation the primary could be shown
+	for _, rec := range recs {
+		if rec.origin == "compare" && rec.height == 0 && rec.lb != nil && rec.lb.Height < tH {
+			forwardSeen = true
+		}
+	}
+	if prim != nil && s != nil && !replaced && !forwardSeen {
 		if pb := prim.view(tH); pb != nil && fromPrim[hkey(pb)] && prim.static(s.Height, tH) && rf.adjacentConsistent(prim.view, s, pb, now) {
 			got := false
 			for _, e := range evs {
